@@ -283,6 +283,7 @@ func main() {
 	var hmShapes [][2]string
 	consts := map[string]string{}
 	termHeightVar := map[string]string{}
+	termWidthVar := map[string]string{}
 	for _, path := range files {
 		base := filepath.Base(path)
 		if strings.HasSuffix(base, "_test.go") {
@@ -352,6 +353,20 @@ func main() {
 						if call, ok := x.Rhs[0].(*ast.CallExpr); ok {
 							if se, ok := call.Fun.(*ast.SelectorExpr); ok && se.Sel.Name == "GetTermSize" {
 								termHeightVar[recv+"."+name] = text(x.Lhs[1])
+								termWidthVar[recv+"."+name] = text(x.Lhs[0])
+								return true
+							}
+						}
+					}
+					// any other assignment to the height in that function: the stand-in for an output that is not a terminal
+					if hv, ok := termHeightVar[recv+"."+name]; ok && len(x.Lhs) == len(x.Rhs) {
+						for i, l := range x.Lhs {
+							if text(l) == hv {
+								if text(x.Rhs[i]) == termWidthVar[recv+"."+name] {
+									consts["nontermHeight"] = "width"
+								} else {
+									consts["nontermHeight"] = text(x.Rhs[i])
+								}
 							}
 						}
 					}
@@ -431,6 +446,7 @@ func main() {
 		adj = "0"
 	}
 	fmt.Fprintf(&b, "(* rows kept on a terminal = reported height + this *)\nDefinition gen_terminal_height_adjust : Z := (%s)%%Z.\n", adj)
+	fmt.Fprintf(&b, "(* height assumed for an output that is not a terminal *)\nDefinition gen_nonterminal_height : string := %q.\n", consts["nontermHeight"])
 	fmt.Fprintf(&b, "Definition gen_default_refresh_rate : string := %q.\n", consts["defaultRefreshRate"])
 	b.WriteString("(* bar_wait_group.go: first statement of Add and of Wait, guard of the Broadcast in Add, loop around cond.Wait in Wait *)\n")
 	fmt.Fprintf(&b, "Definition gen_wait_group : list (string * string) := [(\"Add first\", %q); (\"Wait first\", %q); (\"Add Broadcast\", %q); (\"Wait Wait\", %q)].\n",
